@@ -182,15 +182,35 @@ def variations(ctx, rr):
             continue
         arg = c.args[0]
         vals = []
+        sites = {}
         if isinstance(arg, ast.Name):
             st = P.stmt_of(c)
             nid = [n.id for n in ctx.cfg(ep).nodes if n.ast is st]
             for d in (rd.get(nid[0], {}).get(arg.id, ()) if nid else ()):
                 vals.append(d.value if isinstance(d, ast.Assign) else d)
+                sites[id(vals[-1])] = d if isinstance(d, ast.Assign) else c
         else:
             vals = [arg]
-        okv = bool(vals) and all(_is_encode_call(v) and len(v.args) == 1 and isinstance(v.args[0], ast.Name) and v.args[0].id in ep.params for v in vals if v != 'param') \
-            and 'param' not in vals
+
+        def _bytes_guarded(nd_):
+            # nd_ sits in the true branch of `if isinstance(<parameter>, bytes)`: the spelled-out __encode
+            cur_ = nd_
+            while cur_ is not None and cur_ is not ep.node:
+                par_ = P.parent.get(id(cur_))
+                if isinstance(par_, ast.If) and any(cur_ is b_ for b_ in par_.body) and isinstance(par_.test, ast.Call) and isinstance(par_.test.func, ast.Name) \
+                        and par_.test.func.id == 'isinstance' and len(par_.test.args) == 2 and isinstance(par_.test.args[0], ast.Name) and par_.test.args[0].id in ep.params \
+                        and isinstance(par_.test.args[1], ast.Name) and par_.test.args[1].id == 'bytes':
+                    return True
+                cur_ = par_
+            return False
+
+        def _ok_val(v):
+            if v == 'param' or (isinstance(v, ast.Name) and v.id in ep.params):
+                return _bytes_guarded(sites.get(id(v), c))
+            if isinstance(v, ast.Call) and isinstance(v.func, ast.Attribute) and v.func.attr == 'encode' and isinstance(v.func.value, ast.Name) and v.func.value.id in ep.params:
+                return True
+            return _is_encode_call(v) and len(v.args) == 1 and isinstance(v.args[0], ast.Name) and v.args[0].id in ep.params
+        okv = bool(vals) and all(_ok_val(v) for v in vals)
         rr.ob(ctx.where(ep, c), 'expand_prefix expands exactly the encoded prefix it was given', ok=okv)
         if not okv:
             rr.fail(ctx.finding('R-VARIATIONS', ep, c, 'Traph.expand_prefix alters the prefix before expanding it (%s): the variations of a different LRU are returned and attached, '
